@@ -1,5 +1,17 @@
-import Cellml.Basic.Sexp
-/-! Channel C04 of the model driver (stub: not built yet). -/
+import Cellml.Expr.Wire
+/-! Channel C04: unit inference. -/
 namespace C04
-def handle (_args : List Sexp) : Sexp := .atom "not-implemented"
+open Sexp Expr.Wire
+
+def handle (args : List Sexp) : Sexp :=
+  match setup args with
+  | some (ctx, [.list (.atom "exprs" :: es)]) =>
+      .list [.list (.atom "defs" :: ctx.defs), .list (.atom "results" :: es.map (fun s =>
+        match E.ofSexpWith? (resolveUnit ctx.w) s with
+        | none => .atom "bad-expr"
+        | some e =>
+            match Infer.traverse ctx.reg ctx.Γ e with
+            | .ok (_, u) => .list (.atom "ok" :: unitReply ctx.reg u)
+            | .error err => errReply err))]
+  | _ => .atom "bad-request"
 end C04
